@@ -95,13 +95,16 @@ def run(tier: str, seed: int, replay=None) -> int:
             kw.update({"coverage": True, "require_cov": ["PipelineMC!Grow", "PipelineMC!Seal", "PipelineMC!PitSearch", "PipelineMC!PitExport",
                                                           "PipelineMC!MpsSearch", "PipelineMC!MpsExport", "PipelineMC!Integerize", "PipelineMC!Finish"]})
             first = False
-        done, res = pipe_gen.dump_done_states("PipelineMC", cfg, R, **kw)
+        # (limit 0: every completed pipeline; otherwise a uniform pre-sample of 6 x limit, then stratified by shape / options)
+        done, n_done, res = pipe_gen.dump_done_states("PipelineMC", cfg, R, keep=6 * limit, rng=rng, **kw)
         cand = [pipe_gen.scenario_from_state(st, seed * 100000 + len(scs) + j) for j, st in enumerate(done)]
+        del done
         chosen = pipe_gen.stratified(cand, limit, rng)
+        del cand
         for sc in chosen:
             sc["src"] = cfg
         scs += chosen
-        replay_info.append({"cfg": cfg, "what": label, "states": res.distinct, "completed_pipelines": len(done), "executed": len(chosen)})
+        replay_info.append({"cfg": cfg, "what": label, "states": res.distinct, "completed_pipelines": n_done, "executed": len(chosen)})
     # ---- 2. non-vacuity: without the Supported() guard the hand-over invariants must break
     for cfg in plan["sanity"]:
         R.design("PipelineMC", cfg, expect_ok=False, workers=workers)
